@@ -20,7 +20,10 @@ type profile struct {
 	deepFirst                                                bool // prefer compacting the deepest non-empty level
 	wBatch                                                   int
 	memSize                                                  int64
-	dupVersions                                              bool // batches may write the same key@version twice
+	dupVersions                                              bool  // batches may write the same key@version twice
+	valLen                                                   int   // > 0: values of about this length (fills tables faster)
+	tableSize                                                int64 // > 0: fixed BaseTableSize
+	finalCompact                                             bool  // flush and compact everything at the end, then scan all versions
 }
 
 var keySetA = [][]byte{[]byte("a"), []byte("ab"), []byte("abc"), []byte("b"), {'b', 0}, {'b', 0xff}, []byte("c"), {0}, {0xff}, {0xff, 0xff}, []byte("ba"), []byte("a\x00b")}
@@ -29,6 +32,9 @@ func (c *Ctx) pickKey(p *profile) []byte { return p.keys[c.Rng.Intn(len(p.keys))
 
 func (c *Ctx) value(p *profile) []byte {
 	n := c.Rng.Intn(6)
+	if p.valLen > 0 {
+		n = p.valLen + c.Rng.Intn(4)
+	}
 	if p.bigValues && c.Rng.Intn(3) == 0 {
 		n = 30 + c.Rng.Intn(20) // around the value threshold (32): inline or value log
 	}
@@ -44,6 +50,9 @@ func runHistory(c *Ctx, p *profile) (*hist, error) {
 	o := sysOpts{Managed: p.managed, Detect: p.detect, NKeep: p.nkeeps[c.Rng.Intn(len(p.nkeeps))], MaxLevels: 4,
 		VThreshold: 32, TableSize: int64(256) << uint(c.Rng.Intn(5)), BaseLevelSize: []int64{200, 600, 2 << 10, 8 << 10}[c.Rng.Intn(4)]}
 	o.MemSize = p.memSize
+	if p.tableSize > 0 {
+		o.TableSize = p.tableSize
+	}
 	h, err := newHist(c, o)
 	if err != nil {
 		return nil, err
@@ -254,6 +263,36 @@ func runHistory(c *Ctx, p *profile) (*hist, error) {
 		default:
 			h.maxVersion()
 		}
+	}
+	if p.finalCompact {
+		for id := range h.txns {
+			h.discard(id)
+		}
+		if !p.managed {
+			// let the read watermark pass every commit
+			h.begin(nextT, false, 0)
+			h.discard(nextT)
+			nextT++
+			h.begin(nextT, false, 0)
+			h.discard(nextT)
+			nextT++
+		}
+		if err := h.flush(); err != nil {
+			return h, err
+		}
+		for i := 0; i < 3; i++ {
+			if _, err := h.compact(0, false, nil); err != nil {
+				return h, fmt.Errorf("final compact: %w", err)
+			}
+		}
+		at := uint64(0)
+		if p.managed {
+			at = mts + 1
+		}
+		h.begin(nextT, false, at)
+		h.iterate(nextT, itOpts{All: true}, nil)
+		h.discard(nextT)
+		nextT++
 	}
 	// final reads of every key by a fresh transaction, then a dump
 	at := uint64(0)
